@@ -332,7 +332,8 @@ def parse_operand(s):
     if s.startswith("const "):
         return ("const", parse_const(s[6:]))
     if s.startswith("no_retag copy "):
-        return ("copy", parse_place(s[14:]))
+        # copy of a pointer-like value (reference / Box) made only to reach the pointee
+        return ("nrcopy", parse_place(s[14:]))
     if re.match(r"^[A-Za-z_<]", s) and not re.match(r"^_\d+", s):
         # bare fn item / ZST constant used as an operand (printed without `const`)
         return ("const", ("path", s))
